@@ -54,6 +54,13 @@ func (c *cachedCryptoKey) increment() {
 type cacheEntry struct {
 	loadedAt time.Time
 	key      *cachedCryptoKey
+
+	// latestCheckedAt, when set, is the last time this entry was validated by a
+	// "latest" load, which unlike an exact (id, created) load also validates the
+	// parent key. It stays behind loadedAt when the entry is refreshed through an
+	// exact lookup, so that such refreshes cannot postpone the parent check.
+	// The zero value means loadedAt applies.
+	latestCheckedAt time.Time
 }
 
 // newCacheEntry returns a cacheEntry with the current time and key.
@@ -286,6 +293,19 @@ func tracked(key *cachedCryptoKey) *cachedCryptoKey {
 // The second return value indicates the successful retrieval of a
 // fresh key.
 func (c *keyCache) getFresh(meta KeyMeta) (*cachedCryptoKey, bool) {
+	if meta.IsLatest() && c.cacheType == CacheTypeIntermediateKeys {
+		// a latest lookup is only fresh if the last latest load, not merely the last
+		// exact reload, happened within the interval (system keys have no parent to
+		// validate, for them either kind of reload is as good)
+		if e, ok := c.read(meta); ok && !e.latestCheckedAt.IsZero() {
+			e.loadedAt = e.latestCheckedAt
+
+			if isReloadRequired(e, c.policy.RevokeCheckInterval) {
+				return e.key, false
+			}
+		}
+	}
+
 	if e, ok := c.read(meta); ok && !isReloadRequired(e, c.policy.RevokeCheckInterval) {
 		return e.key, true
 	} else if ok {
@@ -315,6 +335,13 @@ func (c *keyCache) load(meta KeyMeta, loader func(KeyMeta) (*internal.CryptoKey,
 		// existing key in cache. update revoked status and last loaded time and close key
 		// we just loaded since we don't need it
 		e.key.SetRevoked(k.Revoked())
+
+		if meta.IsLatest() {
+			e.latestCheckedAt = time.Time{}
+		} else if e.latestCheckedAt.IsZero() {
+			e.latestCheckedAt = e.loadedAt
+		}
+
 		e.loadedAt = time.Now()
 
 		k.Close()
